@@ -22,19 +22,19 @@ package poseidon_tree
 
 //@ extern pt.PoseidonNode.depth(node) result
 //@   interface
-//@   property C18
+//@   property C18 C08
 //@   requires !ptree.isNil(node)
 //@   ensures result == ptree.dep(node)
 
 //@ extern pt.PoseidonNode.value(node) result
 //@   interface
-//@   property C18
+//@   property C18 C08
 //@   requires !ptree.isNil(node)
 //@   ensures result == ptree.value(node)
 
 //@ extern pt.PoseidonNode.withValue(node, index, val) result
 //@   interface
-//@   property C18
+//@   property C18 C08
 //@   requires ptree.wf(node) && index >= 0 && ptree.dep(node) <= 62 && inField(val)
 //@   ensures ptree.wf(result) && ptree.isFull(result) && ptree.dep(result) == ptree.dep(node)
 //@   ensures forall j :: ptree.leaf(result, j) == (ptree.samePath(index, j, ptree.dep(node)) ? val : ptree.leaf(node, j))
@@ -43,7 +43,7 @@ package poseidon_tree
 
 //@ extern pt.PoseidonNode.writeProof(node, index, out)
 //@   interface
-//@   property C18
+//@   property C18 C08
 //@   requires ptree.wf(node) && index >= 0 && ptree.dep(node) <= 62 && len(out) >= ptree.dep(node)
 //@   modifies out
 //@   ensures len(out) == len(old(out))
@@ -54,51 +54,51 @@ package poseidon_tree
 // ---- implementations ----
 
 //@ func indexIsLeft
-//@   property C18
+//@   property C18 C08
 //@   requires index >= 0 && 1 <= depth && depth <= 63
 //@   ensures result == (bits.bit(index, depth - 1) == 0)
 //@   lemmas pow2_pos bit_bool
 
 //@ func (*PoseidonFullNode) depth
-//@   property C18
+//@   property C18 C08
 //@   implements pt.PoseidonNode.depth
 
 //@ func (*PoseidonEmptyNode) depth
-//@   property C18
+//@   property C18 C08
 //@   implements pt.PoseidonNode.depth
 
 //@ func (*PoseidonFullNode) value
-//@   property C18
+//@   property C18 C08
 //@   implements pt.PoseidonNode.value
 
 //@ func (*PoseidonEmptyNode) value
-//@   property C18
+//@   property C18 C08
 //@   implements pt.PoseidonNode.value
 
 //@ func (*PoseidonFullNode) initHash
-//@   property C18
+//@   property C18 C08
 //@   requires !ptree.isNil(node.left) && !ptree.isNil(node.right)
 //@   requires inField(ptree.value(node.left)) && inField(ptree.value(node.right))
 //@   modifies node.val
 //@   ensures node.val == poseidon.hash2(ptree.value(node.left), ptree.value(node.right)) && inField(node.val)
 
 //@ func (*PoseidonFullNode) withValue
-//@   property C18
+//@   property C18 C08
 //@   implements pt.PoseidonNode.withValue
 //@   lemmas E_field wf_value_field wf_unfold leaf_unfold sib_unfold samePath_unfold bit_bool
 
 //@ func (*PoseidonEmptyNode) withValue
-//@   property C18
+//@   property C18 C08
 //@   implements pt.PoseidonNode.withValue
 //@   lemmas E_field E_step E_zero wf_value_field wf_unfold leaf_unfold sib_unfold samePath_unfold bit_bool
 
 //@ func (*PoseidonFullNode) writeProof
-//@   property C18
+//@   property C18 C08
 //@   implements pt.PoseidonNode.writeProof
 //@   lemmas wf_unfold sib_unfold
 
 //@ func (*PoseidonEmptyNode) writeProof
-//@   property C18
+//@   property C18 C08
 //@   implements pt.PoseidonNode.writeProof
 //@   lemmas sib_unfold
 //@   loop 1
@@ -109,7 +109,7 @@ package poseidon_tree
 // ---- the tree ----
 
 //@ func NewTree
-//@   property C18
+//@   property C18 C08
 //@   requires 0 <= depth && depth <= 62
 //@   ensures ptree.isEmpty(result.root) && ptree.dep(result.root) == depth && ptree.wf(result.root)
 //@   lemmas E_zero E_step E_field wf_unfold
@@ -118,14 +118,14 @@ package poseidon_tree
 //@     invariant forall k :: 0 <= k && k < i ==> initHashes[k] == ptree.E(k)
 
 //@ func (*PoseidonTree) Root
-//@   property C18
+//@   property C18 C08
 //@   requires ptree.wf(tree.root)
 //@   ensures result == ptree.value(tree.root)
 //@   ensures result == ptree.dense(ptree.leaves(tree.root), ptree.dep(tree.root), 0)
 //@   lemmas dense_of_leaves2 wf_dep
 
 //@ func (*PoseidonTree) Update
-//@   property C18
+//@   property C18 C08
 //@   requires ptree.wf(tree.root) && index >= 0 && ptree.dep(tree.root) <= 62 && inField(value)
 //@   modifies tree.root
 //@   let d = ptree.dep(old(tree.root))
